@@ -256,6 +256,13 @@ def run(tier, seed, t0):
                               extra_hook=classes_leg)
     cov, rej = _diagapi.run("C02", "J02", tier, seed, t0, invariants=["InvWellTyped", "InvLaws", "InvSums"],
                             extra_hook=sums_leg, keep_states=True)
+    covc, rejc = _diagapi.run("C02", "J02", tier, seed, t0, cls="cat", invariants=["InvWellTyped", "InvLaws"])
+    cov["cat_machine"] = {k: covc[k] for k in ("states", "transitions", "traces_validated_against_impl", "model", "replay",
+                                               "verdicts_by_clause", "canary")}
+    cov["states"] += covc["states"]
+    cov["transitions"] += covc["transitions"]
+    cov["traces_validated_against_impl"] += covc["traces_validated_against_impl"]
+    rejr = rejr + rejc
     cov["class_laws"] = covr.pop("class_laws")
     cov["rigid_machine"] = {k: covr[k] for k in ("states", "transitions", "traces_validated_against_impl", "model", "replay",
                                                  "verdicts_by_clause", "canary")}
